@@ -255,6 +255,63 @@ pub fn carry_on_ff_top_witnesses(n_zero: usize, firsts: &[u8], max_gap: usize, w
         .collect()
 }
 
+/// Third model-guided search: inputs for which the range coder emits a group of bytes (cached byte + pending 0xFF run)
+/// that straddles, ends at or starts at the 65536th byte of its output - a coder that hands its output on in blocks
+/// has to split that group. Exhaustive over the two literals that follow a fixed pseudo-random prefix which brings the
+/// output to ~40 bytes before the boundary; deterministic; returns up to `want` inputs.
+pub fn block_boundary_witnesses(boundary: usize, salt: u32, want: usize) -> Vec<Vec<u8>> {
+    use rayon::prelude::*;
+    let mut m = enc::Model::new(3, 0, 2);
+    let mut rc = enc::RcEnc::new();
+    let mut bytes: Vec<u8> = Vec::new();
+    let mut x = salt.wrapping_mul(2654435761).wrapping_add(97);
+    let mut next = move || {
+        x ^= x << 13;
+        x ^= x >> 17;
+        x ^= x << 5;
+        (x >> 9) as u8
+    };
+    while rc.out.len() + 40 < boundary {
+        let b = next();
+        m.enc(&mut rc, Sym::L(b));
+        bytes.push(b);
+    }
+    let tail: Vec<u8> = (0..120).map(|_| next()).collect();
+    rc.multi_emits.clear();
+    let hits: Vec<(u8, u8, usize)> = (0..=255u8)
+        .into_par_iter()
+        .flat_map_iter(|a| {
+            let mut m1 = m.clone();
+            let mut rc1 = rc.clone();
+            m1.enc(&mut rc1, Sym::L(a));
+            let tail = &tail;
+            (0..=255u8).filter_map(move |b| {
+                let mut m2 = m1.clone();
+                let mut rc2 = rc1.clone();
+                m2.enc(&mut rc2, Sym::L(b));
+                for t in tail {
+                    m2.enc(&mut rc2, Sym::L(*t));
+                }
+                // kind 3: the cached byte is the last one before the boundary and its 0xFF run lies beyond it; 0: the group
+                // straddles the boundary elsewhere; 1: ends exactly at it; 2: starts exactly at it
+                rc2.multi_emits.iter().find_map(|&(s, c)| if s + 1 == boundary && c >= 2 { Some(3) } else if s < boundary && s + c > boundary { Some(0) } else if s + c == boundary { Some(1) } else if s == boundary { Some(2) } else { None }).map(|k| (a, b, k))
+            })
+        })
+        .collect();
+    let mut out = Vec::new();
+    for kind in 0..4 {
+        for (a, b, _) in hits.iter().filter(|h| h.2 == kind).take(want) {
+            let mut v = bytes.clone();
+            v.push(*a);
+            v.push(*b);
+            v.extend_from_slice(&tail);
+            v.extend((0..300u32).map(|i| (i.wrapping_mul(40503) >> 5) as u8));
+            out.push(v);
+        }
+    }
+    out
+}
+
 pub fn run(tier: Tier) -> i32 {
     let ctx = Ctx::new("C04", "exploration", tier);
     ctx.set_rule("E5 inputs x E3 source fragmentation: all strings over {00, FF, 'a'} up to length L, all strings over the full byte alphabet up to length 2 (3 in thorough), run-structured inputs x^i y^j z^k on a grid up to 4096, LZMA2 chunk-boundary lengths {0,1,65535,65536,65537,131071,131072,131073}; x {WriteToHeader(None), WriteToHeader(Some(len)), SkipWritingToHeader} with the matching decode option; x source cut sets (all <= 2 cuts, all 2^(n-1) for n <= 12, bytewise). Each output must decode to the input with lzma-rs, with the strict reference decoder (marker iff size unknown, code == 0 at the end, exact chunk/index/footer arithmetic) and with liblzma. Byte identity with the reference encoder is not required. distinct_nontrivial = inputs on which the reference range encoder propagated a carry through >= 1 pending 0xFF byte, or that span more than one LZMA2 chunk.");
@@ -429,6 +486,15 @@ pub fn run(tier: Tier) -> i32 {
                 }
             }
             ctx.set_extra("inputs_with_a_carry_landing_on_a_0xFF_top_byte", json!(on_ff));
+            // third objective: a group of output bytes that meets the 64 KiB (and 128 KiB) mark of the coder's output
+            let mut at_block = 0usize;
+            for (boundary, salt) in tier.pick(vec![(65536usize, 1u32)], vec![(65536usize, 1u32), (65536, 2), (131072, 3), (4096, 4), (8192, 5)]) {
+                for b in block_boundary_witnesses(boundary, salt, 2) {
+                    at_block += 1;
+                    items.push(b);
+                }
+            }
+            ctx.set_extra("inputs_with_an_output_byte_group_at_a_64KiB_mark_of_the_coder_output", json!(at_block));
             par_for(items.len() as u64, |ix| {
                 check_input(&items[ix as usize], false, true);
             });
@@ -458,7 +524,10 @@ pub fn run(tier: Tier) -> i32 {
                     .collect();
                 items.push(s);
             }
-            for &n in &[0usize, 1, 65535, 65536, 65537, 131071, 131072, 131073] {
+            let mut lens: Vec<usize> = vec![0usize, 1, 65535, 65536, 65537, 131071, 131072, 131073];
+            // many LZMA2 chunks / positions beyond 2^20 (and 2^24 in the thorough tier)
+            lens.extend(tier.pick(vec![1_048_577usize], vec![1_048_575usize, 1_048_577, 4_194_304 + 3, 16_777_216 + 5]));
+            for &n in &lens {
                 items.push((0..n).map(|i| ((i as u32).wrapping_mul(2654435761) >> 24) as u8).collect());
                 items.push(vec![0xFF; n]);
             }
@@ -466,6 +535,118 @@ pub fn run(tier: Tier) -> i32 {
                 check_input(&items[ix as usize], false, true);
             });
             ctx.scope_done(name, items.len() as u64, t0, "");
+        }
+    }
+    // ---------------------------------------------------------------- inputs beyond 4 GiB: nothing is stored - a generated
+    // source, a sink that keeps the running total and the last bytes. xz_compress: the index and the footer at the end
+    // must describe the block that was actually written (sizes beyond 2^32); lzma2_compress: total = n + 3 per chunk + 1
+    {
+        let name = "inputs-beyond-4GiB";
+        if ctx.may_start(name) {
+            use std::io::{self, BufRead, Read, Write};
+            struct Gen {
+                left: u64,
+                pat: Vec<u8>,
+            }
+            impl Read for Gen {
+                fn read(&mut self, out: &mut [u8]) -> io::Result<usize> {
+                    let n = (out.len() as u64).min(self.left).min(self.pat.len() as u64) as usize;
+                    out[..n].copy_from_slice(&self.pat[..n]);
+                    self.left -= n as u64;
+                    Ok(n)
+                }
+            }
+            impl BufRead for Gen {
+                fn fill_buf(&mut self) -> io::Result<&[u8]> {
+                    let n = (self.pat.len() as u64).min(self.left) as usize;
+                    Ok(&self.pat[..n])
+                }
+                fn consume(&mut self, n: usize) {
+                    self.left -= n as u64;
+                }
+            }
+            struct Tail {
+                total: u64,
+                tail: Vec<u8>,
+            }
+            impl Write for Tail {
+                fn write(&mut self, b: &[u8]) -> io::Result<usize> {
+                    self.total += b.len() as u64;
+                    self.tail.extend_from_slice(b);
+                    if self.tail.len() > 4096 {
+                        let cut = self.tail.len() - 256;
+                        self.tail.drain(..cut);
+                    }
+                    Ok(b.len())
+                }
+                fn flush(&mut self) -> io::Result<()> {
+                    Ok(())
+                }
+            }
+            let t0 = Instant::now();
+            let pat: Vec<u8> = (0..65536u32).map(|i| (i.wrapping_mul(2654435761) >> 21) as u8).collect();
+            let unmbi = |b: &[u8]| -> Option<(u64, usize)> {
+                let mut v = 0u64;
+                for (i, x) in b.iter().enumerate().take(9) {
+                    v |= ((x & 0x7F) as u64) << (7 * i);
+                    if x & 0x80 == 0 {
+                        return Some((v, i + 1));
+                    }
+                }
+                None
+            };
+            let sizes = [(1u64 << 32) + 123_457, (1u64 << 32) - 5];
+            par_for(sizes.len() as u64 * 2, |i| {
+                let n = sizes[i as usize / 2];
+                let xzf = i % 2 == 0;
+                let mut src = Gen { left: n, pat: pat.clone() };
+                let mut sink = Tail { total: 0, tail: Vec::new() };
+                let r = std::panic::catch_unwind(std::panic::AssertUnwindSafe(|| if xzf { lzma_rs::xz_compress(&mut src, &mut sink) } else { lzma_rs::lzma2_compress(&mut src, &mut sink) }));
+                ctx.eval(1);
+                ctx.nontriv(1);
+                let chunks = (n + 65535) / 65536;
+                let problem: Option<String> = match r {
+                    Err(_) => Some("panicked".into()),
+                    Ok(Err(e)) => Some(format!("returned Err({})", e)),
+                    Ok(Ok(())) => {
+                        if !xzf {
+                            let want = n + 3 * chunks + 1;
+                            if sink.total != want { Some(format!("wrote {} bytes, a stream of {} stored chunks for {} input bytes has {}", sink.total, chunks, n, want)) } else { None }
+                        } else {
+                            let t = &sink.tail;
+                            (|| -> Option<String> {
+                                if t.len() < 40 || &t[t.len() - 2..] != b"YZ" {
+                                    return Some("no stream footer at the end".into());
+                                }
+                                let f = &t[t.len() - 12..];
+                                let backward = u32::from_le_bytes([f[4], f[5], f[6], f[7]]) as usize;
+                                let isz = (backward + 1) * 4;
+                                if t.len() < 12 + isz {
+                                    return Some(format!("backward size {} does not fit", backward));
+                                }
+                                let ix = &t[t.len() - 12 - isz..t.len() - 12];
+                                if ix[0] != 0 || ix[1] != 1 {
+                                    return Some(format!("index does not start with 00 01: {:02x?}", &ix[..2]));
+                                }
+                                let (unpadded, a) = unmbi(&ix[2..])?;
+                                let (unc, _) = unmbi(&ix[2 + a..])?;
+                                let padded = (unpadded + 3) / 4 * 4;
+                                if unc != n {
+                                    return Some(format!("index record says {} uncompressed bytes, {} were given", unc, n));
+                                }
+                                if 12 + padded + isz as u64 + 12 != sink.total {
+                                    return Some(format!("index record says the block occupies {} (+ padding) bytes, but {} bytes were written in all (header 12 + block + index {} + footer 12)", unpadded, sink.total, isz));
+                                }
+                                None
+                            })()
+                        }
+                    }
+                };
+                if let Some(p) = problem {
+                    ctx.violation_text(&format!("{} of {} generated bytes into a counting sink: {}", if xzf { "xz_compress" } else { "lzma2_compress" }, n, p), json!({"input_bytes": n, "pattern": "65536-byte block (i*2654435761>>21) repeated"}));
+                }
+            });
+            ctx.scope_done(name, sizes.len() as u64 * 2, t0, "xz_compress / lzma2_compress of 2^32-5 and 2^32+123457 bytes; index, footer and totals checked");
         }
     }
     ctx.finish()
